@@ -127,8 +127,15 @@ func argString(t *rt.Tape, a circuit.IOArg) (string, bool) {
 
 // Prepare compiles the whole-circuit reference of a program and draws
 // inputs. probeSizes are the input sizes used to learn the argument shapes.
-func Prepare(t *rt.Tape, p Program, probe [][]int) *Case {
-	c := &Case{Prog: p}
+func Prepare(t *rt.Tape, p Program, probe [][]int) (c *Case) {
+	c = &Case{Prog: p}
+	defer func() {
+		// a compiler crash on a generated program is outside the streaming
+		// properties (C12 speaks about it): the case is discarded and counted
+		if r := recover(); r != nil {
+			c.Discard = fmt.Sprintf("reference compilation panicked: %v", r)
+		}
+	}()
 	params := NewParams(simrand.Stream("compile-ref"))
 	circ, _, err := compiler.New(params).Compile(p.Src, probe)
 	if err != nil {
